@@ -142,9 +142,10 @@ Transport ==
   \A i \in 1..Len(Seconds) :
     LET h == Seconds[i]
         T == IsoTo(g, h)
-    IN /\ Act(T, BaseOf(g)) = BaseOf(h)
-       /\ VScale(h[2], MatVec(T[1], V1)) = VScale(T[2] * D, DirOf(h))
-       /\ MatMul(Transpose(T[1]), MatMul(J, T[1])) = MatScale(T[2] * T[2], J)
+    IN (\A j \in 1..Dim : VSmall(T[1][j], 10000)) =>
+         /\ Act(T, BaseOf(g)) = BaseOf(h)
+         /\ VScale(h[2], MatVec(T[1], V1)) = VScale(T[2] * D, DirOf(h))
+         /\ MatMul(Transpose(T[1]), MatMul(J, T[1])) = MatScale(T[2] * T[2], J)
 
 SecondsValid ==
   \A i \in 1..Len(Seconds) :
